@@ -262,7 +262,7 @@ def ctor_vcs(n, p, m, hasQ, pr, info):
     calls = getattr(wp, 'norm_calls', [])
     defs, props = getattr(wp, 'norm_defs', []), getattr(wp, 'norm_props', [])
     g = Vcg(wp, wp.name, bound=f'n = {n}, p = {p} (reduced to {pr}), m = {m}', path=path)
-    out = g.from_wp()
+    out = g.from_wp(hyps=props)
     H = held(wp)
     if p and getattr(wp, 'reduced', None) != ('self.m_A', 'self.m_b'):
         out.append(g.vc('reduce() is applied to the equality block (m_A, m_b)', [], 'false', line=line))
